@@ -129,13 +129,15 @@ pub fn run(env: &Env) -> Report {
     let sets = settings16();
     let typeable: Vec<char> = TYPEABLE.chars().collect();
     // work units: (setting index, kind, part)
-    #[derive(Clone)] enum Kind { Short(usize, usize), AcKeys(usize, usize), Emoji(usize, usize), Guided(usize), Suffix(usize), Long }
+    #[derive(Clone)] enum Kind { Short(usize, usize), AcKeys(usize, usize), Emoji(usize, usize), Guided(usize), Suffix(usize), AllSuffixes(usize, usize), Long }
     let mut units: Vec<(usize, Kind)> = vec![];
     let short_sets: Vec<usize> = if env.quick() { vec![(seed as usize) % 16, (seed as usize * 7 + 5) % 16] } else { (0..16).collect() };
     for &si in &short_sets { for g in 0..8 { units.push((si, Kind::Short(g, 8))); } }
     let nset = if env.quick() { 4 } else { 16 };
     for k in 0..nset { let si = (seed as usize + k * 5) % 16; for g in 0..2 { units.push((si, Kind::AcKeys(g, 2 * if env.quick() { 4 } else { 1 }))); units.push((si, Kind::Emoji(g, 2 * if env.quick() { 3 } else { 1 }))); } }
     for k in 0..(if env.quick() { 16 } else { 128 }) { units.push((k % 16, Kind::Guided(k))); units.push((k % 16, Kind::Suffix(k))); }
+    // every one of the suffix keys of suffix.json at least once per run (C08 quantifies over all of them)
+    for g in 0..8 { units.push(((seed as usize + g * 3) % 16, Kind::AllSuffixes(g, 8))); }
     units.push((0, Kind::Long)); units.push((1, Kind::Long));
     let reps = par_map(units.len(), |ui| {
         let (si, kind) = &units[ui];
@@ -191,6 +193,15 @@ pub fn run(env: &Env) -> Report {
                     let sfx = rng.pick(&pools.suffixes).clone();
                     let txt = format!("{}{}", base, sfx);
                     if txt.chars().all(crate::code_ok) && txt.chars().count() < 24 { run_text(&mut s, &mut t, &mut rep, &txt); }
+                }
+            }
+            Kind::AllSuffixes(g, groups) => {
+                let bases = ["desh", "kaj", "ma", "bon", "din", "ami", "sot", "rong", "boi", "manush"];
+                for (i, sk) in pools.suffixes.iter().enumerate() {
+                    if i % groups != *g { continue; }
+                    let base = bases[(i / groups + seed as usize) % bases.len()];
+                    let txt = format!("{}{}", base, sk);
+                    if txt.chars().all(crate::code_ok) { run_text(&mut s, &mut t, &mut rep, &txt); rep.count("suffix-key-covered"); }
                 }
             }
             Kind::Long => {
